@@ -116,7 +116,7 @@ SAFE_EXT = {
     'builtins.len', 'builtins.isinstance', 'builtins.range', 'builtins.enumerate', 'builtins.hash', 'builtins.str',
     'builtins.bool', 'builtins.list', 'builtins.set', 'builtins.tuple', 'builtins.frozenset', 'builtins.sorted',
     'builtins.min', 'builtins.max', 'builtins.repr', 'builtins.bytes', 'builtins.type', 'builtins.reversed', 'builtins.dict',
-    'builtins.super', 'builtins.id', 'builtins.sum', 'builtins.any', 'builtins.all', 'builtins.zip', 'builtins.hasattr',
+    'builtins.super', 'builtins.id', 'builtins.ord', 'builtins.sum', 'builtins.any', 'builtins.all', 'builtins.zip', 'builtins.hasattr',
     'builtins.object.__init__',
     'builtins.str.lower', 'builtins.str.upper', 'builtins.str.join', 'builtins.str.encode', 'builtins.str.endswith', 'builtins.str.startswith',
     'builtins.str.split', 'builtins.str.format', 'builtins.str.partition', 'builtins.str.rpartition', 'builtins.str.strip', 'builtins.str.replace',
@@ -191,7 +191,11 @@ class MayRaise:
         recursion_guard: Optional[Callable[[FuncInfo, ast.Call], bool]] = None,
         discharge: Optional[Callable[[FuncInfo, ast.AST, ExKey], bool]] = None,
         include_explicit_everywhere: bool = True,
+        strict_text: bool = False,
     ) -> None:
+        # strict_text: assumption A4 (text is well-formed Unicode, so encoding it cannot fail) is NOT made inside the hardened
+        # region -- a strict str.encode there is charged UnicodeEncodeError (used where the input is any Python string at all)
+        self.strict_text = strict_text
         self.ctx = ctx
         self.prog: Program = ctx.prog
         self.cg: CallGraph = ctx.cg
@@ -671,6 +675,14 @@ class MayRaise:
             return
         if en in ORDERING_EXT or en in ALWAYS_RAISING_EXT:
             return  # charged in _call, inside and outside the hardened region
+        if en == 'builtins.str.encode' and self.strict_text:
+            mode = n.args[1].value if len(n.args) >= 2 and isinstance(n.args[1], ast.Constant) else None
+            for kw in n.keywords:
+                if kw.arg == 'errors' and isinstance(kw.value, ast.Constant):
+                    mode = kw.value.value
+            if mode in (None, 'strict'):
+                self._add_implicit(out, 'builtins.UnicodeEncodeError', n)
+            return
         if en in SAFE_EXT:
             return
         if en.endswith('.__init__'):
